@@ -27,7 +27,7 @@ type nextOffRule struct {
 }
 
 func (r *nextOffRule) Inline(fn *ssa.Function) bool { return false }
-func (r *nextOffRule) PredOK(string) bool            { return false }
+func (r *nextOffRule) PredOK(string) bool           { return false }
 
 func splitNO(s string) (string, string) {
 	i := strings.Index(s, "|")
